@@ -161,16 +161,18 @@ def run(ctx, chk):
         cn.written = None
         ok = False
         detail = ""
-        if len(s.returns) == 1 and s.returns[0][1][0] == "dictobj":
-            h = ip.heap[s.returns[0][1][1]]
-            dyn = h["dyn"]
-            detail = str([(cn.show(k), cn.show(v)) for k, v, _ in dyn])
-            if len(dyn) == 1 and not h["items"]:
-                k, v, _ = dyn[0]
-                v = unwrap(cn.norm(v))
+        if len(s.returns) == 1:
+            from .shapes import as_mapping, mapping_value_term
+            rt = s.returns[0][1]
+            mp_ = as_mapping(ip, cn, rt)
+            detail = str(mp_) if mp_ else cn.show(rt)
+            if mp_ is not None:
+                ks, vs, loops, cond = mp_
+                v = unwrap(cn.norm(mapping_value_term(ip, rt)))
                 it = f"each(HostVector.{mp}.items())"
-                ok = cn.show(k) == f"{it}[0]" and v[0] == "cell" and v[2] == name and \
-                    cn.show(v[3]) == f"{it}[1]"
+                ok = ks == f"{it}[0]" and loops == [f"HostVector.{mp}.items()"] \
+                    and cond == ("true",) and v[0] == "cell" and v[2] == name and \
+                    cn.show(v[3]) == f"{it}[1]" and cn.show(v[1]) == "S[A]"
         n_acc += 1
         chk.ob("C09.accessor", f"HostVector.{name} maps each name of {mp} to its own flag in family "
                f"{name}", ok, detail, f"{path}:{m.node.lineno}")
